@@ -158,6 +158,13 @@ func genOtherRec(rt *rapid.T, tk *tokens, kind string, collide bool) kenc.Rec {
 		return kenc.Rec{Type: recgen.MMAP, Fields: []kenc.F{kenc.P("fd", tk.num()), kenc.P("flags", "0x"+tk.num())}}
 	case "objpid":
 		return kenc.Rec{Type: recgen.OBJ_PID, Fields: []kenc.F{kenc.P("opid", tk.num()), kenc.P("oauid", tk.num()), kenc.P("ouid", tk.num()), kenc.P("oses", tk.num()), kenc.U("ocomm", tk.s("oc"))}}
+	case "config":
+		// auxiliary records carry their own outcome (res=), which may differ from the SYSCALL's
+		return kenc.Rec{Type: recgen.CONFIG_CHG, Fields: []kenc.F{kenc.P("op", tk.s("op")), kenc.P("list", tk.num()),
+			kenc.P("res", rapid.SampledFrom([]string{"0", "1"}).Draw(rt, "auxres"))}}
+	case "feature":
+		return kenc.Rec{Type: 1328, Fields: []kenc.F{kenc.P("feature", tk.s("feat")), kenc.P("old", tk.num()), kenc.P("new", tk.num()),
+			kenc.P("res", rapid.SampledFrom([]string{"0", "1"}).Draw(rt, "auxres"))}}
 	case "fdpair":
 		return kenc.Rec{Type: recgen.FD_PAIR, Fields: []kenc.F{kenc.P("fd0", tk.num()), kenc.P("fd1", tk.num())}}
 	}
@@ -214,7 +221,7 @@ func genC09(rt *rapid.T) C09Case {
 	default:
 		sys := genSyscallRec(rt, tk)
 		var others []kenc.Rec
-		kinds := []string{"cwd", "execve", "sockaddr", "proctitle", "avc", "apparmor", "bprm", "mmap", "objpid", "fdpair", "kmod"}
+		kinds := []string{"cwd", "execve", "sockaddr", "proctitle", "avc", "apparmor", "bprm", "mmap", "objpid", "fdpair", "kmod", "config", "feature"}
 		for _, k := range kinds {
 			if rapid.IntRange(0, 2).Draw(rt, "has-"+k) == 0 {
 				others = append(others, genOtherRec(rt, tk, k, rapid.IntRange(0, 2).Draw(rt, "collide") == 0))
